@@ -45,6 +45,7 @@ class SourceDataWrapper(ABC):
 
         # total number of rows - guessed from the first dataset
         total_n_rows = self._data_source[next(iter(mapping.values()))].shape[0]
+        self._total_n_rows = total_n_rows
 
         self._from_idx = from_idx
         self._to_idx = to_idx if to_idx is not None else total_n_rows
@@ -170,6 +171,10 @@ class SourceDataWrapper(ABC):
 
         chunk = np.zeros(n_rows, dtype=self._dtype)
         for key, loc in self._mapping.items():
+            if (n := self._data_source[loc].shape[0]) != self._total_n_rows:
+                # (numpy would silently broadcast a 1-row data set to all rows and cut a longer one)
+                raise ValueError(f"All data sets of a frame must have the same number of rows; "
+                                 f"got {n} rows in '{loc}', expected {self._total_n_rows}")
             chunk[key] = self._data_source[loc][idx]
 
         return chunk
